@@ -22,7 +22,7 @@ MIN_EVENTS = {"fitted curves judged": 150,
               "scale comparisons (2^n, bitwise)": 150,
               "retract perturbation comparisons": 150}
 TIMEOUT = {"quick": 900, "thorough": 3500}
-N_CASES = {"quick": 14, "thorough": 320}     # per shard
+N_CASES = {"quick": 14, "thorough": 1500}     # per shard
 RULE = ("case = (fitted curve: synthetic over 3 models x noise x spikes x "
         "short(<600)/long segments x segment lengths, or recorded good/bad "
         "curve) x feature subset x scale factor x retract perturbation, plus "
